@@ -51,6 +51,10 @@ pub struct ReplySpec {
     /// not JSON, 3 = the peer closes instead of sending this reply. Later replies are not sent.
     #[serde(default)]
     pub term: u8,
+    /// insignificant white space around the reply's JSON: 0 none, 1 "\n" after (what encoders
+    /// that write one document per line send), 2 " " before, 3 "\r\n" after, 4 " " before and "\n" after
+    #[serde(default)]
+    pub ws: u8,
 }
 
 #[derive(Debug, Clone, Serialize, Deserialize)]
@@ -99,13 +103,20 @@ impl Case {
                         (format!("}}{{{s}").into_bytes(), 2)
                     };
                 }
+                let (pre, post) = match r.ws {
+                    1 => ("", "\n"),
+                    2 => (" ", ""),
+                    3 => ("", "\r\n"),
+                    4 => (" ", "\n"),
+                    _ => ("", ""),
+                };
                 if r.err && (!self.more || last) {
                     let head = r#"{"error":"org.example.Worse","parameters":{"code":1,"msg":""#;
-                    (format!("{head}{s}\"}}}}").into_bytes(), head.len())
+                    (format!("{pre}{head}{s}\"}}}}{post}").into_bytes(), pre.len() + head.len())
                 } else {
                     let head = r#"{"parameters":{"n":1,"name":""#;
                     let tail = if self.more && !last { "\"},\"continues\":true}" } else { "\"}}" };
-                    (format!("{head}{s}{tail}").into_bytes(), head.len())
+                    (format!("{pre}{head}{s}{tail}{post}").into_bytes(), pre.len() + head.len())
                 }
             })
             .collect()
@@ -197,7 +208,7 @@ pub fn run_case(case: &Case) -> (Class, CaseResult) {
             Poll::Pending => {
                 polls += 1;
                 if polls > 8 {
-                    return (class, Err(Fail::new("harness", "stream stayed pending")));
+                    return (class, Err(Fail::new("reply-stream-stalls", "every reply has been delivered to the transport, but the stream stays pending (a reply was lost)")));
                 }
                 continue;
             }
@@ -227,7 +238,7 @@ pub fn run_case(case: &Case) -> (Class, CaseResult) {
                 }
                 if let Some(slice) = slice {
                     if idx >= offs.len() {
-                        return (class, Err(Fail::new("harness", "more items than replies")));
+                        return (class, Err(Fail::new("reply-stream-item-count", "more items than replies")));
                     }
                     held.push(Held { slice, copy: slice.to_string(), stream_off: offs[idx] });
                 }
@@ -249,7 +260,7 @@ pub fn run_case(case: &Case) -> (Class, CaseResult) {
     }
     let expect_items = term_at.unwrap_or(case.replies.len());
     if held.len() != expect_items || yielded != expect_items + term_at.is_some() as usize {
-        return (class, Err(Fail::new("harness", format!("{} items ({} with data) for {} replies", yielded, held.len(), case.replies.len()))));
+        return (class, Err(Fail::new("reply-stream-item-count", format!("{} items ({} with data) for {} replies", yielded, held.len(), case.replies.len()))));
     }
     let _ = early_yield;
     (class, Ok(()))
@@ -288,7 +299,7 @@ fn recheck(held: &[Held<'_>], when: &str) -> CaseResult {
 pub fn witness() -> Option<String> {
     let case = Case {
         more: false,
-        replies: vec![ReplySpec { len: 8, err: false, continues: false, term: 0 }, ReplySpec { len: 8, err: false, continues: false, term: 0 }],
+        replies: vec![ReplySpec { len: 8, err: false, continues: false, term: 0, ws: 0 }, ReplySpec { len: 8, err: false, continues: false, term: 0, ws: 0 }],
         cuts: vec![],
     };
     let stream = case.stream();
@@ -326,8 +337,9 @@ fn reply_strategy() -> impl Strategy<Value = ReplySpec> {
         any::<bool>(),
         // one reply in ten is where the exchange fails at the top level
         prop_oneof![9 => Just(0u8), 1 => 1u8..=3],
+        prop_oneof![6 => Just(0u8), 2 => Just(1u8), 1 => 2u8..=4],
     )
-        .prop_map(|(len, err, continues, term)| ReplySpec { len, err, continues, term })
+        .prop_map(|(len, err, continues, term, ws)| ReplySpec { len, err, continues, term, ws })
 }
 
 /// Adjust the last reply so that the batch length hits k*256 + delta.
@@ -386,7 +398,7 @@ pub fn check_case(case: &Case, stats: &mut Stats) -> CaseResult {
             stats.excluded(SIG_KNOWN);
             // harness errors are still errors
             match verdict {
-                Err(f) if f.sig == "harness" => Err(f),
+                Err(f) if f.sig == "harness" || f.sig.starts_with("reply-stream-") => Err(f),
                 _ => Ok(()),
             }
         }
@@ -417,7 +429,7 @@ pub fn run(ctx: &Ctx) -> i32 {
     let mut directed = Vec::new();
     for n in 2..=4usize {
         for total in 200..=1100usize {
-            let mut case = Case { more: n % 2 == 0, replies: (0..n).map(|i| ReplySpec { len: (i * 7 % 30) as u16, err: i == 1 && n == 3, continues: true, term: 0 }).collect(), cuts: vec![] };
+            let mut case = Case { more: n % 2 == 0, replies: (0..n).map(|i| ReplySpec { len: (i * 7 % 30) as u16, err: i == 1 && n == 3, continues: true, term: 0, ws: ((i + n) % 5) as u8 }).collect(), cuts: vec![] };
             let base = case.stream().len();
             if total < base {
                 continue;
